@@ -74,7 +74,7 @@ class Bot:
         #   `self.next_row_generator`
         # - The `s_size_change` thread continues executing, and sets `self.next_row_generator` to
         #   `None`, thus overwriting the **new** row generator (which was perfectly fine).
-        self.next_row_generator_lock = threading.Lock()
+        self.next_row_generator_lock = threading.RLock()
         self.next_row_generator: Optional[RowGenerator] = None
 
         self._tower = tower
@@ -242,8 +242,12 @@ class Bot:
         return True
 
     def _on_look_to(self) -> None:
-        if self._check_starting_row() and self._check_number_of_bells():
-            self.look_to_has_been_called(time.time())
+        # Check the row generator that will actually be rung, i.e. the queued one if there is one.
+        # The (re-entrant) lock is held until `look_to_has_been_called` has made that generator
+        # current, so that the one which was checked is the one which gets rung.
+        with self.next_row_generator_lock:
+            if self._check_starting_row() and self._check_number_of_bells(self.next_row_generator):
+                self.look_to_has_been_called(time.time())
 
     # This is public because it's used by `wheatley.main.server_main`.  `server_main` calls it
     # because, when running Wheatley on the RR servers, it is entirely possible that a new Wheatley
